@@ -397,10 +397,10 @@ STD_BODY = {'msgs': 1, 'partial': False, 'eof': True}
 
 
 def mk(ops, fin, card='UU', body=None, headers=None, policy='honour', fin2=None, ext='none', ext_at=None,
-       paused0=False, hooks_await=False, big=False, codec=None):
+       paused0=False, hooks_await=False, big=False, codec=None, details=None):
     if headers is None:
         headers = BASE if codec in (None, 'proto') else replaced('content-type', 'application/grpc+' + codec)
-    return {'headers': [list(h) for h in headers], 'codec': codec, 'card': card,
+    return {'headers': [list(h) for h in headers], 'codec': codec, 'details': details, 'card': card,
             'body': dict(body or STD_BODY), 'ops': list(ops), 'fin': list(fin), 'policy': policy,
             'fin2': list(fin2 or ['ret']), 'ext': ext, 'ext_at': ext_at, 'paused0': bool(paused0),
             'hooks_await': bool(hooks_await), 'big': bool(big)}
@@ -527,7 +527,8 @@ def gen_random(rng, classes):
         headers = [(k, 'application/grpc+' + codec) if (k == 'content-type' and v == 'application/grpc') else (k, v)
                    for k, v in headers]
     return mk(ops, fin, rng.choice(CARDS), body, headers, policy, fin2, ext, ext_at,
-              paused0=rng.random() < 0.15, hooks_await=rng.random() < 0.3, big=rng.random() < 0.04, codec=codec)
+              paused0=rng.random() < 0.15, hooks_await=rng.random() < 0.3, big=rng.random() < 0.04, codec=codec,
+              details=rng.choice([None, None, 'empty', 'obj', 'nested']))
 
 
 def build_cases(ctx, res):
@@ -584,6 +585,20 @@ def build_cases(ctx, res):
                 for fin in FINS_X:
                     if fin[0] != 'wait':
                         add('codec', mk(ops, fin, card, codec=codec))
+    # 1f. handlers that report errors WITH status details (none, [], an arbitrary object, a list of arbitrary
+    #     objects) on servers with the default-subtype and with non-default codecs, no details codec configured:
+    #     raised GRPCError and explicit trailers, before and after a message -- every call must still be answered
+    for codec in [None] + CODECS:
+        for det in ('empty', 'obj', 'nested'):
+            for card in CARDS:
+                for eof in (True, False):
+                    body = {'msgs': 1, 'partial': False, 'eof': eof}
+                    for ops, fin in (([], ['grpc', 9, 'why']), (['M'], ['grpc', 3, None]), (['R', 'I'], ['grpc', 16, 'x']),
+                                     ([['T', 5, 'nf']], ['ret']), (['M', ['T', 0, None]], ['ret']),
+                                     (['M', ['T', 13, 'boom']], ['exc']), (['S'], ['wait'])):
+                        add('details', mk(ops, fin, card, body, None if fin[0] != 'wait' else
+                                          (replaced('content-type', 'application/grpc+' + codec) if codec else BASE) + [FAR],
+                                          policy='swallow', fin2=['grpc', 4, 'late'], codec=codec, details=det))
     # 1d. replies larger than the client's connection window (it advertises 1 MiB per stream, 65535 per
     #     connection, and returns connection-level credit as it reads): the reply path depends on that credit
     for ops in ([ 'M'], ['M', 'M'], ['R', 'M', 'S', 'M'], ['I', 'M', ['T', 0, None]], ['M', ['T', 5, 'nf']],
@@ -732,7 +747,9 @@ def run(ctx):
                 'pairs, duplicates, timeout and -bin spellings) x END_STREAM timing x 3 programs; (1b) the same request '
                 'classes plus deadlines about to expire (1n, 1u) x {transport paused before the request arrives, listeners '
                 'on all five hooks that really await, both} x 4 cardinalities x END_STREAM, and all programs to depth 2 x '
-                '8 endings with awaiting listeners; (1d) 100000-byte replies to a client that advertises 1 MiB per stream / '
+                '8 endings with awaiting listeners; (1f) GRPCError / explicit trailers carrying status details (none, [], arbitrary object, list of arbitrary '
+                'objects) on default- and non-default-codec servers x 4 cardinalities x END_STREAM x 7 programs; '
+                '(1d) 100000-byte replies to a client that advertises 1 MiB per stream / '
                 '65535 per connection and returns connection-level credit as it reads; (1e) servers built with a non-default '
                 'codec (content subtypes json, x.my-codec): every request class as is and with the server\'s own content-type '
                 'x END_STREAM, all programs to depth 2 x 7 endings x {UU,SS}; (1c) GRPCError / explicit-trailer messages that need escaping (%41, '
